@@ -243,3 +243,8 @@ mod test {
         );
     }
 }
+
+#[cfg(feature = "verif")]
+pub fn verif_default_key_map() -> HashMap<Key, ActionChain> {
+    get_default_key_map()
+}
